@@ -49,7 +49,13 @@ func init() {
 		Exec:      exec,
 		BFS: &engine.BFS{
 			Ops: func(tier string) []string {
-				return append(append([]string{}, smallCfg.ops(0)...), fullCfg.ops(fullDepth(tier))...)
+				var all []string
+				all = append(all, varCfg.ops(0)...)
+				all = append(all, funCfg.ops(0)...)
+				all = append(all, smallCfg.ops(smallDepth(tier))...)
+				all = append(all, fullCfg.ops(fullDepth(tier))...)
+				all = append(all, seedOps(1+seedDepth(tier))...)
+				return all
 			},
 			MaxDepth:     func(string) int { return 64 },
 			NoDedupDepth: noDedupDepth,
@@ -63,10 +69,13 @@ func init() {
 		Required: []string{"inherited-visible", "own-shadows-exported", "unuse-with-own-defs", "unexport-while-used",
 			"unbind-exported-while-used", "private-blocked", "two-used-export-same", "export-before-define", "indirect-use", "static-qualified-introspection"},
 		Bound: func(tier string) string {
-			return fmt.Sprintf("small configuration (2 packages x 1 variable x 1 function, 22 operations): BFS to the fixpoint (every reachable implementation state, every depth); "+
-				"full configuration (3 packages x 2 variables x 2 functions, 66 operations): BFS with state dedup to depth %d (all histories up to depth %d without dedup); "+
-				"static phase: qualified boundp/fboundp/symbol-value/funcall/#' probes and defpackage :use/:export options over all histories of length <= %d of the small configuration",
-				fullDepth(tier), noDedupDepth(tier), staticDepth(tier))
+			return fmt.Sprintf("configurations V (2 packages x 1 variable, 14 operations) and W (2 packages x 1 function, 12 operations): BFS to the FIXPOINT "+
+				"(every reachable implementation state, every depth); S (2 packages x 1 variable x 1 function, 22 operations): BFS with state dedup to depth %d; "+
+				"F (3 packages x 2 variables x 2 functions, 66 operations): BFS with state dedup to depth %d from the empty state and to depth %d after each of %d "+
+				"prepared three-package states (seeds: two exporters of the same names, a use chain, one exporter with two users, a use cycle); histories up to depth %d "+
+				"are explored without dedup; static phase: qualified boundp/fboundp/symbol-value/funcall/#' probes and defpackage :use/:export options over all "+
+				"histories of length <= %d of configuration S, and every prefix of every seed",
+				smallDepth(tier), fullDepth(tier), seedDepth(tier), len(seeds), noDedupDepth(tier), staticDepth(tier))
 		},
 		Selftest:      selftest,
 		CaseDeadlineS: 30,
@@ -78,9 +87,30 @@ func fullDepth(tier string) int {
 		return v // development aid only
 	}
 	if tier == engine.Thorough {
-		return 5
+		return 4
 	}
-	return 4
+	return 3
+}
+
+// seedDepth: operations explored after a seed.
+func seedDepth(tier string) int {
+	if v, err := strconv.Atoi(os.Getenv("VERIF_C13_SEEDDEPTH")); err == nil && 0 <= v && v < 8 {
+		return v // development aid only
+	}
+	if tier == engine.Thorough {
+		return 3
+	}
+	return 2
+}
+
+func smallDepth(tier string) int {
+	if v, err := strconv.Atoi(os.Getenv("VERIF_C13_SMALLDEPTH")); err == nil && 0 < v && v < 10 {
+		return v // development aid only
+	}
+	if tier == engine.Thorough {
+		return 7
+	}
+	return 5
 }
 
 func noDedupDepth(tier string) int {
@@ -123,7 +153,10 @@ func execBFS(hist []string) (res engine.Result) {
 		if 0 < len(ops) && (ops[0].cfg != o.cfg || ops[0].limit != o.limit) {
 			return // operations of the other configuration: inapplicable
 		}
-		ops = append(ops, o)
+		if o.kind == "seed" && 0 < len(ops) || o.cfg == seedCfg && len(ops) == 0 && o.kind != "seed" {
+			return // a seed is a first operation, and the seeded exploration starts with one
+		}
+		ops = append(ops, o.expand()...)
 	}
 	cfg := ops[0].cfg
 	tr := runTransition(cfg, nil, ops, &res)
@@ -227,6 +260,9 @@ func runTransitionOpts(cfg *config, opts map[string]pkgOpts, ops []op, res *engi
 }
 
 func (o op) String() string {
+	if o.kind == "seed" {
+		return fmt.Sprintf("%c%da.seed.%s", o.cfg.tag, o.limit, o.arg)
+	}
 	return fmt.Sprintf("%c%d%s.%s.%s", o.cfg.tag, o.limit, o.cfg.pk[o.actor], o.kind, o.arg)
 }
 
@@ -281,14 +317,38 @@ func slotAliased(sl slot, aliased map[string]bool) bool {
 //	I: they must also be acceptable for the graph abstracted from the post-state
 //	   (the lookup functions agree with the tables).
 //
-// Slots that already disagreed before the step (I on the pre-state) and slots
-// whose cell two packages hold as a definition are not judged.
+// Not judged (degraded mode, S9): slots that already disagreed before the step,
+// slots of a (package, name) whose pre-state entry is shared as a definition by
+// two packages / hidden / an orphaned copy, and every slot of a name when the
+// operation acts on such an entry.
 func judge(cfg *config, res *engine.Result, last *op, slots []slot, obs, obsPre []observation, gPre *graph,
 	aliasedPre map[string]bool, post *dump, alts []*graph, pre *dump, opErr *lisp.Err) {
 
 	skip := map[int]bool{}
+	badName := map[string]bool{} // names not judged at all in this transition
+	if last != nil {
+		mark := func(p int) {
+			for k := range aliasedPre {
+				// key: <pkg digit><kind><name>
+				if int(k[0]-'0') == p {
+					badName[k[1:]] = true
+				}
+			}
+		}
+		if 0 <= last.argPk {
+			mark(last.actor)
+			mark(last.argPk)
+		} else {
+			for _, kind := range []byte{'v', 'f'} {
+				if aliasedPre[fmt.Sprintf("%d%c%s", last.actor, kind, last.arg)] {
+					badName["v"+last.arg] = true
+					badName["f"+last.arg] = true
+				}
+			}
+		}
+	}
 	for i, sl := range slots {
-		if slotAliased(sl, aliasedPre) {
+		if slotAliased(sl, aliasedPre) || badName[string(sl.kind)+sl.name] {
 			skip[i] = true
 		}
 	}
@@ -297,23 +357,13 @@ func judge(cfg *config, res *engine.Result, last *op, slots []slot, obs, obsPre 
 			skip[m] = true
 		}
 	}
-	var gPost *graph
-	if post != nil {
-		var aliasedPost map[string]bool
-		gPost, aliasedPost = post.abstract()
-		for i, sl := range slots {
-			if slotAliased(sl, aliasedPost) {
-				skip[i] = true
-			}
-		}
-	}
 	for range skip {
 		res.Hit("degraded-slots")
 	}
 	// go faults in probes are failures whatever is expected
 	for i, o := range obs {
 		if strings.HasPrefix(o.val, "F:") {
-			res.Fail(sigFor(cfg, last, slots[i], nil, "go-fault", "fault", "P"), fmt.Sprintf("after %s: probe %s => %s", histOp(last), describeSlot(cfg, slots[i]), o.val))
+			res.Fail(sigFor(last, "P", "go-fault", slots[i], nil, nil), fmt.Sprintf("after %s: probe %s => %s", histOp(last), describeSlot(cfg, slots[i]), o.val))
 			skip[i] = true
 		}
 	}
@@ -328,36 +378,56 @@ func judge(cfg *config, res *engine.Result, last *op, slots []slot, obs, obsPre 
 			break
 		}
 	}
-	reported := map[int]bool{}
+	// one failure per (package looked into, name): the forms and probes that
+	// disagree are listed in the signature
 	report := func(check string, ms []mismatch, ref *graph) {
-		// merge the unqualified probes of one (package, name)
 		type grp struct {
 			m      mismatch
-			probes []string
+			rank   int
+			forms  map[string]bool
+			probes map[string]bool
+			detail []string
+		}
+		rank := func(m mismatch) int {
+			r := map[string]int{"unq": 0, "int": 3, "ext": 6, "uses": 9, "users": 9}[m.sl.form]
+			if m.sl.probe == "boundp" || m.sl.probe == "fboundp" {
+				r++
+			}
+			if m.sl.c != m.sl.q {
+				r++
+			}
+			return r
 		}
 		var order []string
 		groups := map[string]*grp{}
 		for _, m := range ms {
-			k := fmt.Sprintf("%s|%d|%d|%c|%s", m.sl.form, m.sl.c, m.sl.q, m.sl.kind, m.sl.name)
+			k := fmt.Sprintf("%d|%c|%s", m.sl.q, m.sl.kind, m.sl.name)
+			if m.sl.form == "uses" || m.sl.form == "users" {
+				k = fmt.Sprintf("%s|%d", m.sl.form, m.sl.c)
+			}
 			g := groups[k]
 			if g == nil {
-				g = &grp{m: m}
+				g = &grp{m: m, rank: rank(m), forms: map[string]bool{}, probes: map[string]bool{}}
 				groups[k] = g
 				order = append(order, k)
-			} else if g.m.sl.probe == "boundp" || g.m.sl.probe == "fboundp" {
-				g.m = m // describe the group by a value probe rather than by the predicate
+			} else if r := rank(m); r < g.rank {
+				g.m, g.rank = m, r
 			}
-			g.probes = append(g.probes, m.sl.probe)
+			g.forms[m.sl.form] = true
+			if m.sl.probe != "" {
+				g.probes[m.sl.probe] = true
+			}
+			g.detail = append(g.detail, fmt.Sprintf("%s%s => %s, acceptable %s", describeSlot(cfg, m.sl), probeList([]string{m.sl.probe}), m.got.val, m.want))
 		}
 		for _, k := range order {
 			g := groups[k]
-			kind, gotc := classifyMismatch(cfg, last, ref, g.m)
-			sig := sigFor(cfg, last, g.m.sl, g.probes, kind, gotc, check)
-			detail := fmt.Sprintf("after %s (pre-state %s): %s => %s, acceptable %s [reference graph %s]",
-				histOp(last), gPre, describeSlot(cfg, g.m.sl)+probeList(g.probes), g.m.got.val, g.m.want, ref)
+			kind := classifyMismatch(ref, g.m)
+			sig := sigFor(last, check, kind, g.m.sl, g.forms, g.probes)
+			detail := fmt.Sprintf("after %s (pre-state %s): %s [reference graph %s]", histOp(last), gPre, strings.Join(g.detail, "; "), ref)
 			res.Fail(sig, detail)
 		}
 	}
+	reported := map[int]bool{}
 	for _, m := range best {
 		for i, sl := range slots {
 			if sl == m.sl {
@@ -366,7 +436,8 @@ func judge(cfg *config, res *engine.Result, last *op, slots []slot, obs, obsPre 
 		}
 	}
 	report("T", best, bestAlt)
-	if gPost != nil {
+	if post != nil {
+		gPost, aliasedPost := post.abstract()
 		skipI := map[int]bool{}
 		for i := range skip {
 			skipI[i] = true
@@ -374,7 +445,23 @@ func judge(cfg *config, res *engine.Result, last *op, slots []slot, obs, obsPre 
 		for i := range reported {
 			skipI[i] = true
 		}
-		report("I", mismatches(gPost, rules{}, slots, obs, skipI), gPost)
+		for i, sl := range slots {
+			if slotAliased(sl, aliasedPost) {
+				skipI[i] = true
+			}
+		}
+		// I tolerates a missing inherited copy (T is what demands that definitions
+		// are pushed to users): only something visible that the tables do not
+		// explain, or a definition the tables hold that is not reached, counts.
+		var im []mismatch
+		for _, m := range mismatches(gPost, rules{}, slots, obs, skipI) {
+			own := gPost.tab(m.sl.q, m.sl.kind)[m.sl.name]
+			if (m.got.val == "U" || m.got.val == "N") && (own == nil || own.val == unboundVal) {
+				continue
+			}
+			im = append(im, m)
+		}
+		report("I", im, gPost)
 	}
 }
 
@@ -442,7 +529,7 @@ func rel(last *op, p int) string {
 	return "other"
 }
 
-// valClass names a value by who wrote it, relative to the operation.
+// valClass names a value by who wrote it (used in static signatures).
 func valClass(last *op, v string) string {
 	n, err := strconv.Atoi(v)
 	if err != nil {
@@ -451,59 +538,50 @@ func valClass(last *op, v string) string {
 		}
 		return v
 	}
-	switch {
-	case 30 <= n:
-		return "defun-by-" + rel(last, n-30)
-	case 20 <= n:
-		return "setq-by-" + rel(last, n-20)
-	case 10 <= n:
-		return "defvar-by-" + rel(last, n-10)
+	if 10 <= n {
+		return "value"
 	}
 	return "odd"
 }
 
 // classifyMismatch names the relation that is broken.
-func classifyMismatch(cfg *config, last *op, ref *graph, m mismatch) (kind, got string) {
-	got = valClass(last, norm(m.got.val))
+func classifyMismatch(ref *graph, m mismatch) (kind string) {
 	if m.sl.form == "uses" || m.sl.form == "users" {
-		return "wrong-package-list", "list"
+		return "wrong-package-list"
 	}
 	own := ref.tab(m.sl.q, m.sl.kind)[m.sl.name]
 	hasOwn := own != nil && !own.hidden && own.val != unboundVal
-	gotVal := m.got.val != "U" && m.got.val != "N" && m.got.val != "T"
-	if m.sl.probe == "boundp" || m.sl.probe == "fboundp" {
-		gotVal = m.got.val == "T"
-		got = m.got.val
-	}
+	gotVal := m.got.val != "U" && m.got.val != "N"
 	wantVal := m.want.hasValue() || m.want.has("T")
 	wantU := m.want.has("U") || m.want.has("N")
 	switch {
+	case strings.HasPrefix(m.got.val, "?"):
+		return "odd-result"
 	case wantVal && !wantU && !gotVal:
 		if hasOwn {
 			if m.sl.form == "ext" {
-				return "exported-own-unreachable", got
+				return "exported-own-unreachable"
 			}
-			return "own-definition-lost", got
+			return "own-definition-lost"
 		}
-		return "inherited-not-visible", got
+		return "inherited-not-visible"
 	case !wantVal && gotVal:
 		if hasOwn {
-			return "private-reachable", got
+			return "private-reachable"
 		}
-		// what does the value belong to?
-		return "visible-but-not-in-graph", got
+		return "visible-but-not-in-graph"
 	case wantVal && gotVal:
 		if hasOwn {
-			return "own-definition-shadowed", got
+			return "own-definition-shadowed"
 		}
-		return "wrong-definition", got
+		return "wrong-definition"
 	}
-	return "mismatch", got
+	return "mismatch"
 }
 
-// sigFor builds the signature: operation x (which package looks, which name)
-// x form x broken relation.
-func sigFor(cfg *config, last *op, sl slot, probes []string, kind, got, check string) string {
+// sigFor builds the signature: operation x whose name is looked up (relative to
+// the operation) x broken relation x the forms / probes that show it.
+func sigFor(last *op, check, kind string, sl slot, forms, probes map[string]bool) string {
 	opk := "creation"
 	nameRel := ""
 	if last != nil {
@@ -519,30 +597,27 @@ func sigFor(cfg *config, last *op, sl slot, probes []string, kind, got, check st
 	if sl.kind == 'f' {
 		what = "fn"
 	}
-	s := fmt.Sprintf("op=%s check=%s kind=%s form=%s", opk, check, kind, sl.form)
-	switch sl.form {
-	case "uses", "users":
-		return s + " of=" + rel(last, sl.c)
-	case "unq":
-		s += fmt.Sprintf(" in=%s name=%s%s", rel(last, sl.c), nameRel, what)
+	s := fmt.Sprintf("op=%s check=%s kind=%s", opk, check, kind)
+	if sl.form == "uses" || sl.form == "users" {
+		return s + " list=" + sl.form + " of=" + rel(last, sl.c)
+	}
+	s += fmt.Sprintf(" in=%s name=%s%s", rel(last, sl.q), nameRel, what)
+	keys := func(m map[string]bool) string {
 		var l []string
-		for _, p := range probes {
-			if p != "" {
-				l = append(l, p)
-			}
+		for k := range m {
+			l = append(l, k)
 		}
 		sort.Strings(l)
-		if 0 < len(l) {
-			s += " probes=" + strings.Join(l, "+")
-		}
-	default:
-		from := "other"
-		if sl.c == sl.q {
-			from = "same"
-		}
-		s += fmt.Sprintf(" of=%s from=%s name=%s%s", rel(last, sl.q), from, nameRel, what)
+		return strings.Join(l, "+")
 	}
-	return s + " got=" + got
+	if forms == nil {
+		return s + " form=" + sl.form
+	}
+	s += " forms=" + keys(forms)
+	if 0 < len(probes) {
+		s += " probes=" + keys(probes)
+	}
+	return s
 }
 
 // count bumps the vacuity counters for what the transition exercises.
